@@ -223,3 +223,19 @@ def lazy_ctor(facts):
     if len(cands) == 1:
         return cands[0]
     raise AnchorLost("the lazy constructor of ZipFile's decoding reader (get_reader, or Read::read with it inlined): %d candidates" % len(cands))
+
+
+def precedes_on_every_path(fn, first_bb, then_bb, max_paths=40000):
+    """path-sensitive stand-in for `fn.dominates(first_bb, then_bb)`: on every feasible acyclic path (E4: `?` on a value built on the
+    path takes the edge that value calls for) that visits `then_bb`, `first_bb` was visited before.  Dominance is lost when a helper
+    whose error exits merge with its success exit was inlined in front of the caller's `?`; the paths are not fooled.
+    -> True / False, or None when the function has too many paths to enumerate"""
+    from engine.paths import paths, PathExplosion
+    try:
+        ps = paths(fn, max_paths=max_paths)
+    except PathExplosion:
+        return None
+    thru = [p for p in ps if then_bb in p["blocks"]]
+    if not thru:
+        return False
+    return all(first_bb in p["blocks"] and p["blocks"].index(first_bb) < p["blocks"].index(then_bb) for p in thru)
